@@ -20,7 +20,8 @@ def gen_scenario(seed, i, tier):
     depth = rng.pick([1, 2, 2, 3]) if tier == "thorough" else rng.pick([1, 2, 2])
     else_pos = rng.pick(["first", "last", "any", "last"])
     g = gen.WfGen(rng.fork("wf"), depth=depth, max_steps=rng.range(1, 3), max_branches=3, max_acts=rng.range(1, 3), p_if=20,
-                  p_branches=55, else_pos=else_pos, needs=rng.chance(1, 2), mixed=rng.chance(1, 6), two_else=rng.chance(1, 10),
+                  p_branches=85 if i % 5 == 4 else 55, else_pos=else_pos, needs=rng.chance(1, 2), mixed=(i % 5 == 4) or rng.chance(1, 6),
+                  two_else=(i % 5 != 4) and rng.chance(1, 10),
                   act_kinds=((gen.IRQ, 6), (gen.MSG, 2)))
     w = g.workflow("m1")
     if i % 10 == 9:
